@@ -403,7 +403,10 @@ def first_diff(a, b, path=""):
 
 def cross_diff(sers, procs):
     """(k, where) for the first process k that disagrees with process 0"""
-    for k in range(1, len(sers)):
+    order = list(range(1, len(sers)))
+    # a process with the SAME hash seed (another root) first: then the root alone is the cause
+    order.sort(key=lambda k: procs[k][0] != procs[0][0])
+    for k in order:
         if sers[k] != sers[0]:
             return k, first_diff(sers[0], sers[k])
     return None
